@@ -54,7 +54,7 @@ theorem slices_length' {α : Type} (B : Nat) (xs : List α) : (slices B xs).leng
   slices_length B xs
 
 theorem perm_mem_lt {N : Nat} {perm : List Nat} (h : perm.Perm (List.range N)) : ∀ i ∈ perm, i < N :=
-  fun i hi => List.mem_range.mp (h.mem_iff.mp hi)
+  fun _ hi => List.mem_range.mp (h.mem_iff.mp hi)
 
 theorem perm_length {N : Nat} {perm : List Nat} (h : perm.Perm (List.range N)) : perm.length = N := by
   simpa using h.length_eq
@@ -390,8 +390,8 @@ theorem filterMap_allZ {ρ : Type} (l : List (ρ × List String)) :
   | nil => rfl
   | cons p l ih =>
     by_cases h : allZ p.2 = true
-    · simp [List.filterMap_cons, List.filter_cons, h, ih]
-    · simp [List.filterMap_cons, List.filter_cons, h, ih]
+    · simp [h, ih]
+    · simp [h, ih]
 
 /-- **C07.4b** `extract_refbasis_samples` returns exactly the rows whose basis row consists of `"Z"` only, in their
 original order (a sub-list of the data; duplicates kept); a bases array of the wrong length is an `IndexError`. -/
